@@ -21,6 +21,8 @@ PID = "C07"
 TITLE = "Nested-dictionary algebra: intersection, difference and recursive update"
 LEAN_MODULES = ["LenaModel.Props.C07"]
 LEAN_SOURCES = ["LenaModel/Model/Val.lean", "LenaModel/Model/C07.lean", "LenaModel/Model/C07Tok.lean",
+                "LenaModel/Model/C07Ext.lean", "LenaModel/Model/C07Mut.lean", "LenaModel/Lemmas/C07Ext.lean",
+                "LenaModel/Lemmas/C07Mut.lean",
                 "LenaModel/Lemmas/C07Tok.lean", "LenaModel/Lemmas/C07.lean",
                 "LenaModel/Lemmas/C07Update.lean", "LenaModel/Lemmas/C07Nested.lean", "LenaModel/Lemmas/C07Level.lean",
                 "LenaModel/Props/C07.lean"]
@@ -74,6 +76,31 @@ THEOREMS = [
     "Lena.C07.inter_shares_nothing",
     "Lena.C07.diffT_value",
     "Lena.C07.diff_objects",
+    # update_recursively with a string `other` / `value`; keyword arguments; the nested_dicts test
+    "Lena.C07.str_to_dict_value",
+    "Lena.C07.str_to_dict_errors",
+    "Lena.C07.update_str_value",
+    "Lena.C07.update_str_leaves_alone",
+    "Lena.C07.update_forms",
+    "Lena.C07.intersection_kw",
+    "Lena.C07.nested_dicts_test_never_fires",
+    "Lena.C07.most_nested_spec",
+    # the callers: LenaSplit._get_context, group_plots, Zip._create_context, _update_with_group
+    "Lena.C07.split_context",
+    "Lena.C07.group_context",
+    "Lena.C07.zip_context",
+    "Lena.C07.update_with_group_contains",
+    "Lena.C07.update_with_group_contains_old",
+    "Lena.C07.update_with_group_result",
+    # what is mutated (write-log model)
+    "Lena.C07.update_mut_value",
+    "Lena.C07.update_writes",
+    "Lena.C07.update_never_writes_other",
+    "Lena.C07.update_objects",
+    "Lena.C07.update_other_objects_intact",
+    "Lena.C07.diff_old_objects_intact",
+    "Lena.C07.update_nested_mut_value",
+    "Lena.C07.update_nested_writes",
     # update_recursively
     "Lena.C07.update_contains",
     "Lena.C07.update_keeps",
@@ -222,6 +249,28 @@ def _interleave(streams):
         streams = alive
 
 
+def _mutate_deep(rng, d, keys, leaves):
+    """change d at one or two places as deep down as possible"""
+    d = copy.deepcopy(d)
+    for _ in range(rng.randint(1, 2)):
+        cur = d
+        while True:
+            sub = [k for k in keys if isinstance(cur.get(k), dict)]
+            if sub and rng.random() < 0.9:
+                cur = cur[rng.choice(sub)]
+                continue
+            k = rng.choice(keys)
+            r = rng.random()
+            if r < 0.3:
+                cur.pop(k, None)
+            elif r < 0.7:
+                cur[k] = copy.deepcopy(rng.choice(leaves))
+            else:
+                cur[k] = {rng.choice(keys): copy.deepcopy(rng.choice(leaves))}
+            break
+    return d
+
+
 def _gen(ctx, n_exh_leaves, n_pair, n_multi, n_nested, n_bad, n_ext):
     """lazy stream of cases; every stream has its own generator seeded from ctx.rng"""
     top = ctx.rng
@@ -277,6 +326,19 @@ def _gen(ctx, n_exh_leaves, n_pair, n_multi, n_nested, n_bad, n_ext):
             if rng.random() < 0.5:
                 a, b = b, a
             yield {"op": "pair", "a": a, "b": b, "levels": LEVELS, "paths": True}
+
+    def deep_pairs():
+        """narrow dictionaries of depth up to 6 (beyond the depth 3 the property names): the recursion reaches levels
+        that the shallow scopes never see (-4, -5, …; a positive level counted down to 1 several levels below)"""
+        rng = __import__("random").Random(seeds[8])
+        for _ in range(max(n_pair // 6, 100)):
+            keys = rng.choice([["a"], ["a", "b"], ["a", "b"]])
+            leaves = rng.sample(PALETTE, 2)
+            a = _rand_dict(rng, keys, rng.choice([4, 5, 6]), leaves, p_absent=0.15, p_dict=0.8)
+            b = _mutate_deep(rng, a, keys, leaves)
+            if rng.random() < 0.5:
+                a, b = b, a
+            yield {"op": "pair", "a": a, "b": b, "levels": [-1, -2, 1, 2, 4, 5, 6], "paths": rng.random() < 0.3}
 
     def multis():
         rng = __import__("random").Random(seeds[1])
@@ -355,7 +417,12 @@ def _gen(ctx, n_exh_leaves, n_pair, n_multi, n_nested, n_bad, n_ext):
             leaves = PALETTE if rng.random() < 0.5 else rng.sample(PALETTE, 3)
             keys = keys3 if rng.random() < 0.6 else ["a", "b", "zip"]
             vals = _family(rng, keys, rng.choice([1, 2, 2]), leaves, rng.choice([1, 2, 2, 3, 4]), p_mut=0.85)
-            yield {"op": "zip", "values": vals, "fields": rng.random() < 0.3}
+            case = {"op": "zip", "values": vals, "fields": rng.random() < 0.3, "kind": rng.choice(["fc", "fc", "fr"])}
+            if rng.random() < 0.4:
+                # the same Zip object combines a second tuple of values
+                case["values2"] = [_mutate(rng, v, keys, leaves) if rng.random() < 0.7 else
+                                   _rand_dict(rng, keys, 2, leaves) for v in vals]
+            yield case
 
     def groups():
         rng = __import__("random").Random(seeds[6])
@@ -378,10 +445,22 @@ def _gen(ctx, n_exh_leaves, n_pair, n_multi, n_nested, n_bad, n_ext):
             ctx_ = _fresh(old) if rng.random() < 0.6 else _mutate(rng, old, keys3, leaves)
             if rng.random() < 0.5:
                 ctx_[rng.choice(keys3)] = copy.deepcopy(rng.choice(leaves))
+            if rng.random() < 0.35:
+                # through MapGroup.run: the old intersection is computed from context.group, one new context per member
+                oldgrp = [_mutate(rng, c, keys3, leaves) for c in new]
+                glb = oldgrp[0]
+                for c in oldgrp[1:]:
+                    glb = ref_glb(-1, glb, c)
+                ctx_ = _fresh(glb) if rng.random() < 0.7 else _mutate(rng, glb, keys3, leaves)
+                if rng.random() < 0.5:
+                    ctx_[rng.choice(keys3)] = copy.deepcopy(rng.choice(leaves))
+                yield {"op": "uwg", "ctx": _with_changed(rng, ctx_, 0.3), "new": [_with_changed(rng, c, 0.3) for c in new],
+                       "old": {}, "oldgrp": oldgrp}
+                continue
             yield {"op": "uwg", "ctx": _with_changed(rng, ctx_, 0.4), "new": [_with_changed(rng, c, 0.3) for c in new],
                    "old": _with_changed(rng, _fresh(old), 0.15)}
 
-    return _interleave([exh_pairs(), exh_small(), pairs(), multis(), nesteds(), bads(), ustrs(), zips(), groups(), uwgs()])
+    return _interleave([exh_pairs(), exh_small(), pairs(), deep_pairs(), multis(), nesteds(), bads(), ustrs(), zips(), groups(), uwgs()])
 
 
 def gen_cases(ctx):
@@ -785,43 +864,65 @@ def _run_impl(case):
         return {"e": u["e"]} if "e" in u else {"ok": d.get(key) is nodes[0]}
     if op == "zip":
         import lena.flow
-        vals = _fresh(case["values"])
-        s0 = _snap(vals)
+        rounds = [_fresh(case["values"])] + ([_fresh(case["values2"])] if "values2" in case else [])
+        s0 = _snap(rounds)
+        fr = case.get("kind") == "fr"
 
         class _Src(object):
-            def __init__(self, i, c):
-                self.i, self.c = i, c
+            def __init__(self, i):
+                self.i = i
 
             def fill(self, val):
                 pass
 
-            def compute(self):
-                yield (self.i, self.c)
+            def _vals(self):
+                for rnd in rounds:
+                    yield (self.i, rnd[self.i])
 
-        kw = {"fields": ["f%d" % i for i in range(len(vals))]} if case.get("fields") else {}
-        try:
-            z = lena.flow.Zip([_Src(i, c) for i, c in enumerate(vals)], **kw)
-            z.fill(0)
-            res = list(z.compute())
-        except Exception as e:  # noqa
-            return {"e": exc_name(e), "changed": _snap(vals) != s0}
-        data, context = lena.flow.get_data_context(res[0])
-        zp = context.get("zip")
-        out = {"n_out": len(res), "data": list(data), "changed": _snap(vals) != s0}
-        if isinstance(zp, tuple):
-            out["zip"] = [x for x in zp]
-            out["common"] = {k: v for k, v in context.items() if k != "zip"}
-            # each value is the common part updated with its own part (the point of the construction)
-            recs = []
-            for x in zp:
-                rec = copy.deepcopy(out["common"])
-                u = _call(lc.update_recursively, rec, copy.deepcopy(x))
-                recs.append({"r": rec} if "r" in u else u)
-            out["recs"] = recs
+            def reset(self):
+                pass
+
+        if fr:
+            _Src.request = _Src._vals
         else:
-            out["zip"] = None
-            out["common"] = context
-        return out
+            _Src.compute = _Src._vals
+        kw = {"fields": ["f%d" % i for i in range(len(rounds[0]))]} if case.get("fields") else {}
+        try:
+            z = lena.flow.Zip([_Src(i) for i in range(len(rounds[0]))], **kw)
+            z.fill(0)
+            if fr:
+                z.reset()
+            it = z.request() if fr else z.compute()
+        except Exception as e:  # noqa
+            return {"e": exc_name(e), "phase": "init"}
+        outs = []
+        for _ in rounds:
+            try:
+                val = next(it)
+            except StopIteration:
+                outs.append({"e": "Other:StopIteration"})
+                break
+            except Exception as e:  # noqa
+                outs.append({"e": exc_name(e)})
+                break            # the generator is finished after an exception
+            data, context = lena.flow.get_data_context(val)
+            zp = context.get("zip")
+            out = {"data": list(data)}
+            if isinstance(zp, tuple):
+                out["zip"] = [x for x in zp]
+                out["common"] = {k: v for k, v in context.items() if k != "zip"}
+                # each value is the common part updated with its own part (the point of the construction)
+                recs = []
+                for x in zp:
+                    rec = copy.deepcopy(out["common"])
+                    u = _call(lc.update_recursively, rec, copy.deepcopy(x))
+                    recs.append({"r": rec} if "r" in u else u)
+                out["recs"] = recs
+            else:
+                out["zip"] = None
+                out["common"] = context
+            outs.append(out)
+        return {"outs": outs, "changed": _snap(rounds) != s0}
     if op == "group":
         from lena.flow.group_plots import group_plots
         ctxs = _fresh(case["ctxs"])
@@ -856,6 +957,27 @@ def _run_impl(case):
     if op == "uwg":
         from lena.flow.group_plots import _update_with_group
         ctx_, new, old = _fresh(case["ctx"]), _fresh(case["new"]), _fresh(case["old"])
+        if "oldgrp" in case:
+            import lena.flow
+            from lena.flow.group_plots import MapGroup
+            oldgrp = _fresh(case["oldgrp"])
+            s0 = _snap(new, oldgrp)
+
+            class _Repl(object):
+                def run(self, flow):
+                    for val in flow:
+                        data, _c = lena.flow.get_data_context(val)
+                        yield (data, new[data])
+
+            ctx_["group"] = oldgrp
+            u = _call(lambda: list(MapGroup(_Repl()).run([(list(range(len(oldgrp))), ctx_)])))
+            if "e" in u:
+                return u
+            (data, c1), = u["r"]
+            grp = c1.get("group")
+            return {"ctx": {k: v for k, v in c1.items() if k != "group"},
+                    "group_is": isinstance(grp, list) and len(grp) == len(new) and all(x is y for x, y in zip(grp, new)),
+                    "changed": _snap(new, oldgrp) != s0}
         s0 = _snap(new, old)
         u = _call(_update_with_group, ctx_, new, old)
         if "e" in u:
@@ -882,7 +1004,7 @@ def _run_impl(case):
 # translation to the model's slot vectors
 
 _VALUE_FIELDS = ("a", "b", "d", "other", "value", "ctx", "old")
-_LIST_FIELDS = ("ds", "vals", "values", "ctxs", "new")
+_LIST_FIELDS = ("ds", "vals", "values", "values2", "ctxs", "new", "oldgrp")
 
 
 def _case_values(case):
@@ -1008,8 +1130,8 @@ def model_requests(case):
     if op == "cyc":
         return []          # a self-referential value is not a value of the model
     if op == "zip":
-        return [{"op": "zip", "n": n, "zk": e.keys.index("zip"), "values": [e.val(v) for v in case["values"]],
-                 "falsy": e.falsy()}]
+        return [{"op": "zip", "n": n, "zk": e.keys.index("zip"), "values": [e.val(v) for v in vals], "falsy": e.falsy()}
+                for vals in _zip_rounds(case)]
     if op in ("group", "split"):
         ks = e.keys + ["output", "changed"] if op == "split" else e.keys
         return [{"op": "group", "n": n, "o": ks.index("output"), "ch": ks.index("changed"),
@@ -1018,7 +1140,7 @@ def model_requests(case):
     if op == "uwg":
         return [{"op": "uwg", "n": n, "o": e.keys.index("output"), "ch": e.keys.index("changed"), "tt": e.tt, "ff": e.ff,
                  "ctx": e.val(case["ctx"]), "new": [e.val(c) for c in case["new"]], "old": e.val(case["old"]),
-                 "falsy": e.falsy()}]
+                 "falsy": e.falsy(), **({"oldgrp": [e.val(c) for c in case["oldgrp"]]} if "oldgrp" in case else {})}]
     if op == "bad":
         vals = [e.val(v) for v in case["vals"]]
         reqs = [{"op": "inter", "n": n, "level": case["level"], "ds": vals, "falsy": e.falsy()}]
@@ -1042,6 +1164,29 @@ def _expand(r, a):
     return r
 
 
+def _ref_toks(t):
+    """identities reachable from a token-annotated tree, in preorder"""
+    if "s" in t:
+        return [t["t"]] + [x for c in t["s"] if c is not None for x in _ref_toks(c)]
+    return list(t["t"])
+
+
+def _ref_dict_toks(t):
+    if "s" in t:
+        return [t["t"]] + [x for c in t["s"] if c is not None for x in _ref_dict_toks(c)]
+    return []
+
+
+def _ref_erase(t):
+    if "s" in t:
+        return [None if c is None else _ref_erase(c) for c in t["s"]]
+    return t["l"]
+
+
+def _zip_rounds(case):
+    return [case["values"]] + ([case["values2"]] if "values2" in case else [])
+
+
 def _count_toks(v, enc):
     ctr = [0]
     _tok_tree(v, enc, ctr)
@@ -1059,6 +1204,10 @@ def _compare_mut(what, mut, m, other_before):
         return f"{what}: `other` consists of {mut['other']} afterwards, before the call of {other_before}"
     if mut["d"] != m["d"]:
         return f"{what}: objects of d afterwards: impl {mut['d']} vs write-log model {m['d']}"
+    if "subs" in m and m["subs"] != _ref_dict_toks(m["d"]):
+        return f"{what}: Lean subsV/rootTok give {m['subs']} for {m['d']}"
+    if m["erase"] != _ref_erase(m["d"]) or ("objs" in m and m["objs"] != _ref_toks(m["d"])):
+        return f"{what}: Lean eraseV/toksV give {m['erase']}/{m.get('objs')} for {m['d']}"
     bad = [t for t in mut["written"] if t not in m["log"]]
     if bad:
         return f"{what}: the dictionaries {bad} were changed but are not in the model's write log {m['log']}"
@@ -1088,7 +1237,15 @@ def compare(case, res, replies):
         a, b = case["a"], case["b"]
         if len(replies) > 2:
             # identity pattern of the results: new object / which object of d1 (token model)
-            for lv, r, mt in zip(case["levels"], res["lv"], replies[2]["r"]):
+            for lv, r, mt, ml in zip(case["levels"], res["lv"], replies[2]["r"], m["r"]):
+                # Lean toksV / eraseV on the model's own results against the Python reference of the same notions
+                for tree, toks, er, val in (("inter", "itoks", "ierase", "iab"), ("diff", "dtoks", "derase", "dab")):
+                    if mt[toks] != _ref_toks(mt[tree]):
+                        return f"Lean toksV gives {mt[toks]} for {mt[tree]}, the Python reference {_ref_toks(mt[tree])}"
+                    if mt[er] != _ref_erase(mt[tree]) or mt[er] != ml[val]:
+                        return f"Lean eraseV gives {mt[er]} for {mt[tree]} (reference {_ref_erase(mt[tree])}, value model {ml[val]})"
+                if mt["dsubs"] != _ref_dict_toks(mt["diff"]):
+                    return f"Lean subsV/rootTok give {mt['dsubs']} for {mt['diff']}, the Python reference {_ref_dict_toks(mt['diff'])}"
                 for name in ("inter", "diff"):
                     if "tok" in r and r["tok"][name] != mt[name]:
                         return (f"level {lv}: objects of the {'intersection' if name == 'inter' else 'difference'}: impl "
@@ -1114,6 +1271,10 @@ def compare(case, res, replies):
             msg = _compare_mut("update_recursively", res["mut"], replies[3], _tok_tree(b, e, [_count_toks(a, e)]))
             if msg:
                 return msg
+            if "dicts" in replies[3] and replies[3]["dicts"] != _ref_dict_toks(_tok_tree(a, e, [0])):
+                return f"Lean dictToksV gives {replies[3]['dicts']}, the Python reference {_ref_dict_toks(_tok_tree(a, e, [0]))}"
+            if "erase" in replies[3] and replies[3]["erase"] != m["upd"]:
+                return f"write-log model value {replies[3]['erase']} differs from the value model {m['upd']}"
         da = max([_depth(v) for v in a.values()] + [0])
         if m["da"] != da:
             return f"Lean depthL gives {m['da']}, the Python reference {da}"
@@ -1201,18 +1362,24 @@ def compare(case, res, replies):
     if op == "cyc":
         return None
     if op == "zip":
-        m = replies[0]
-        if "e" in res or "e" in m:
-            if res.get("e") != m.get("e"):
-                return f"Zip._create_context({case['values']}): impl {res.get('e', 'returns')} vs model {m}"
-            return None
-        got = {"common": e.val(res["common"]), "zip": None if res["zip"] is None else [e.val(x) for x in res["zip"]]}
-        if got != {"common": m["common"], "zip": m["zip"]}:
-            return f"Zip._create_context({case['values']}): impl {got} vs model {m}"
-        if "recs" in res and [_obs(e, r) for r in res["recs"]] != [{"r": x} for x in m["recs"]]:
-            return f"Zip: common part updated with each value's part: impl {res['recs']} vs model {m['recs']}"
-        if m["recs"] != [e.val(v) for v in case["values"]]:
-            return f"model: Zip parts do not reconstruct the values: {m['recs']}"
+        if "e" in res:
+            return f"Zip could not be set up: {res}"
+        for i, (vals, m) in enumerate(zip(_zip_rounds(case), replies)):
+            if i >= len(res["outs"]):
+                return f"Zip yielded {len(res['outs'])} values for {len(replies)} tuples of values"
+            out = res["outs"][i]
+            what = f"Zip._create_context({vals})" + (" (second value of the same Zip)" if i else "")
+            if "e" in out or "e" in m:
+                if out.get("e") != m.get("e"):
+                    return f"{what}: impl {out.get('e', 'returns')} vs model {m}"
+                break            # the generator is finished after the exception
+            got = {"common": e.val(out["common"]), "zip": None if out["zip"] is None else [e.val(x) for x in out["zip"]]}
+            if got != {"common": m["common"], "zip": m["zip"]}:
+                return f"{what}: impl {got} vs model {m}"
+            if "recs" in out and [_obs(e, r) for r in out["recs"]] != [{"r": x} for x in m["recs"]]:
+                return f"{what}: common part updated with each value's part: impl {out['recs']} vs model {m['recs']}"
+            if m["recs"] != [e.val(v) for v in vals]:
+                return f"model: Zip parts do not reconstruct the values: {m['recs']}"
         return None
     if op == "group":
         m = replies[0]
@@ -1302,7 +1469,7 @@ _TAGS = [
     ("update-item-lost", r"is not overwritten by other"),
     ("update-nested", r"^update_nested"),
     ("zip-context", r"^Zip\._create_context"),
-    ("group-context", r"^group_plots|^Split\._get_context|^_update_with_group"),
+    ("group-context", r"^group_plots|^Split\._get_context|^_update_with_group|^MapGroup"),
     ("exception", r"raised"),
 ]
 
@@ -1456,26 +1623,33 @@ def _oracle(case, res):
     if op == "cyc":
         return None
     if op == "zip":
-        vals = case["values"]
-        if res.get("changed"):
-            return f"Zip._create_context changed a context of {vals}"
         if "e" in res:
-            return None       # update_nested with a tuple as `other`: outside the statement (see notes/C07_defect_1.md)
-        common, zp = res["common"], res["zip"]
-        what = f"Zip._create_context({vals})"
-        if zp is None:
-            for v in vals:
-                if ref_diff(1, v, common):
-                    return f"{what} = {common} without zip, but {v} has items not contained in it"
-            return _oracle_inter(1, vals, common, f"{what}: common part")
-        msg = _oracle_inter(1, vals, common, f"{what}: common part")
-        if msg:
-            return msg
-        for v, x, rec in zip(vals, zp, res["recs"]):
-            if x != ref_diff(1, v, common):
-                return f"{what}: the part {x} of {v} is not its difference from the common part {common}"
-            if "e" in rec or rec["r"] != v:
-                return f"level 1: updating the intersection {common} with the difference {x} gives {rec}, not {v} ({what})"
+            return f"Zip could not be set up: {res} for {case}"
+        if res.get("changed"):
+            return f"Zip._create_context changed a context of {_zip_rounds(case)}"
+        for i, vals in enumerate(_zip_rounds(case)):
+            if i >= len(res["outs"]):
+                return f"Zip yielded only {len(res['outs'])} values for {_zip_rounds(case)}"
+            out = res["outs"][i]
+            if "e" in out:
+                # update_nested with a tuple as `other` when the common part has the key "zip": outside the statement
+                # (notes/C07_defect_1.md); the generator is finished afterwards
+                return None
+            common, zp = out["common"], out["zip"]
+            what = f"Zip._create_context({vals})" + (" (second value of the same Zip)" if i else "")
+            msg = _oracle_inter(1, vals, common, f"{what}: common part")
+            if msg:
+                return msg
+            if zp is None:
+                for v in vals:
+                    if ref_diff(1, v, common):
+                        return f"{what} = {common} without zip, but {v} has items not contained in it"
+                continue
+            for v, x, rec in zip(vals, zp, out["recs"]):
+                if x != ref_diff(1, v, common):
+                    return f"{what}: the part {x} of {v} is not its difference from the common part {common}"
+                if "e" in rec or rec["r"] != v:
+                    return f"level 1: updating the intersection {common} with the difference {x} gives {rec}, not {v} ({what})"
         return None
     if op == "group":
         ctxs = case["ctxs"]
@@ -1514,8 +1688,14 @@ def _oracle(case, res):
         glb = new[0]
         for c in new[1:]:
             glb = ref_glb(-1, glb, c)
-        upd_ = ref_diff(-1, glb, case["old"])
-        what = f"_update_with_group({case['ctx']}, {new}, {case['old']})"
+        old = case["old"]
+        if "oldgrp" in case:
+            old = case["oldgrp"][0]
+            for c in case["oldgrp"][1:]:
+                old = ref_glb(-1, old, c)
+        upd_ = ref_diff(-1, glb, old)
+        what = (f"MapGroup.run: context {case['ctx']}, group {case['oldgrp']} -> {new}" if "oldgrp" in case
+                else f"_update_with_group({case['ctx']}, {new}, {case['old']})")
         if not contained(-1, upd_, res["ctx"]):
             return f"{what} gives {res['ctx']}, which does not contain the difference {upd_} of the intersections"
         for p in _paths(case["ctx"]):
@@ -1591,8 +1771,10 @@ def classify(case, res):
     if op == "kw":
         return ["kw:" + res["inter"].get("e", "ok")]
     if op == "zip":
-        return ["zip:" + (res["e"] if "e" in res else ("all-common" if res["zip"] is None else "with-parts")),
-                f"zip:n={len(case['values'])}"]
+        o = res["outs"][0] if res.get("outs") else res
+        return ["zip:" + (o["e"] if "e" in o else ("all-common" if o["zip"] is None else "with-parts")),
+                f"zip:n={len(case['values'])}", "zip:kind=" + case.get("kind", "fc") + ("+fields" if case.get("fields") else ""),
+                f"zip:rounds={len(_zip_rounds(case))}"]
     if op in ("group", "split", "uwg", "cyc"):
         return [op + ":" + (res["e"] if "e" in res else "ok")]
     return [op]
@@ -1640,6 +1822,9 @@ def shrink(case):
             for s in _sub_values(case[name]):
                 yield dict(case, **{name: s})
     elif op in ("zip", "group", "split", "uwg", "kw"):
+        if "values2" in case:
+            yield {k: v for k, v in case.items() if k != "values2"}
+            return
         name = {"zip": "values", "group": "ctxs", "split": "ctxs", "uwg": "new", "kw": "ds"}[op]
         ds = case[name]
         for i in range(len(ds)):
